@@ -171,3 +171,12 @@ pub broadcast axiom fn axiom_coin_key_inj(a: CoinID, b: CoinID) requires #[trigg
 pub broadcast axiom fn axiom_count_key_inj(a: Address, b: Address) requires #[trigger] k_count(a) == #[trigger] k_count(b) ensures a == b;
 pub broadcast axiom fn axiom_key_sep(id: CoinID, a: Address) ensures #[trigger] k_coin(id) != #[trigger] k_count(a);
 pub broadcast group group_raw_axioms { axiom_ser_cdh, axiom_ser_u64, axiom_coin_key_inj, axiom_count_key_inj, axiom_key_sep, novasmt::axiom_tree_total }
+
+// (u32, Vec<u8>): the DoscMint payload (difficulty, proof bytes)
+pub uninterp spec fn de_doscpayload(b: Seq<u8>) -> Option<(u32, Vec<u8>)>;
+impl StdSer for (u32, Vec<u8>) {
+    uninterp spec fn ser(&self) -> Seq<u8>;
+    open spec fn de(b: Seq<u8>) -> Option<(u32, Vec<u8>)> { de_doscpayload(b) }
+    #[verifier::external_body] proof fn ser_props(&self) {}
+    #[verifier::external_body] proof fn de_props(b: Seq<u8>) {}
+}
